@@ -1059,7 +1059,7 @@ public:
     /// \returns Position of the first character of the found substring or npos
     /// if no such substring is found. Note that this is an offset from the
     /// start of the string, not the end.
-    [[nodiscard]] constexpr auto rfind(Char ch, size_type pos = 0) const noexcept -> size_type
+    [[nodiscard]] constexpr auto rfind(Char ch, size_type pos = npos) const noexcept -> size_type
     {
         return etl::strings::rfind<Char, Traits>(*this, ch, pos);
     }
